@@ -167,6 +167,7 @@ def main(argv=None):
         "paths_by_end": s.paths_by_end,
         "forks": s.forks,
         "queries": s.queries,
+        "fact_hits": s.fact_hits,
         "check_queries": s.check_queries,
         "solver_s": round(s.solver_s, 3),
         "steps": s.steps,
